@@ -58,10 +58,21 @@ type knobs struct {
 	OwnBuf   bool // caller passes its own *runtime.Buffer
 }
 
-func drawKnobs(t *kernel.Tape) knobs {
+// blockBufSize picks the render-buffer size for a run. It is a function of the run's block
+// (64 consecutive run indices), not of the tape: a worker process executes exactly one block,
+// so every buffer a process ever creates has one size, and a pool implementation that keeps
+// buffers alive between runs (any correct one may) cannot make a run depend on the runs
+// before it.
+func blockBufSize(run uint64, sizes []int) int {
+	b := run / 64
+	b = (b ^ (b >> 7)) * 0x9e3779b97f4a7c15
+	return sizes[(b>>33)%uint64(len(sizes))]
+}
+
+func drawKnobs(t *kernel.Tape, run uint64) knobs {
 	sizes := []int{16, 64, 512, 4096, 8192}
 	return knobs{
-		BufSize:  sizes[t.Choose(len(sizes), "bufsize")],
+		BufSize:  blockBufSize(run, sizes),
 		PoolMode: t.Choose(4, "poolmode"),
 		WKind:    t.Choose(3, "wkind"),
 		Sticky:   t.Bool("sticky"),
@@ -123,7 +134,7 @@ func c10World(rc *kernel.RunCtx) {
 	t := rc.T
 	k := kernel.New(t, kernel.M1, 1<<30)
 	kernel.Active = k
-	kn := drawKnobs(t)
+	kn := drawKnobs(t, rc.Run)
 	kn.install(t)
 	defer simsync.SetPoolPolicy(nil, 0)
 	u := newUniverse(3)
